@@ -5,6 +5,7 @@ CONSTANTS
   Chain <- ChainQ
   Head0 <- HeadQ
   MaxCrash = 1
+  MaxTries = 3
   Known <- KnownNone
 INVARIANT C21Inv
 INVARIANT C22Inv
